@@ -208,9 +208,9 @@ func (w *c07World) close() {
 	}()
 	select {
 	case <-done:
-	case <-time.After(5 * time.Second):
+	case <-time.After(30 * time.Second):
 		// a lock is still held by something that went wrong in this execution: abandon the instance
-		w.fail("cleanup (Suicide of the fractions) did not finish within 5 s: a lock is still held after the execution")
+		w.fail("cleanup (Suicide of the fractions) did not finish within 30 s: a lock is still held after the execution")
 	}
 	os.RemoveAll(w.dir)
 }
